@@ -1,6 +1,7 @@
 """C04 -- a composite behaves like an array of its units (SH1, S1, RO, U1)."""
 from ..rules import proj_rules as P
 from ..rules import shape_rules as S
+from ..rules import sibling_rules as SI
 from ..rules.common import u1
 
 PROJ = P.PROJ
@@ -22,6 +23,7 @@ def run(ctx):
     ctx.do(S.rule_sh2)
     ctx.do(S.rule_sh3)
     ctx.do(S.rule_sh5)
+    ctx.do(SI.rule_mean1, [SI.HYP], min_sites=2)
     ctx.do(S.rule_ax1, [CORE, "geometry_tools/hyperbolic.py", PROJ])
     ctx.do(P.rule_s1, ops=[(PROJ, "ProjectiveObject.reshape"),
                         (PROJ, "ProjectiveObject.flatten_to_unit"),
